@@ -53,6 +53,9 @@ var c10Contexts = []struct {
 	{"{{ [", "][0] }}", ""},
 	{"{{ {k: ", "}.k }}", ""},
 	{"{{ true ? ", " : 1 }}", ""},
+	{"{{ ", " + \"\" }}", ""},
+	{"{{ \"\" + ", " }}", ""},
+	{"{{ v = ", " + ''; v }}", ""},
 }
 
 // HarnessC10Literal: a string literal of K symbolic bytes reaches the output HTML-escaped in every context;
